@@ -59,6 +59,17 @@ def promotion_script(draw):
     if draw(st.booleans()):
         lines += ["def scale(a, b):", "    return a * b"]
         lines += ["r1 = scale(2, 3)", "r2 = scale(2, 0.5)", "r3 = scale(1.5, 2)"][: draw(st.integers(1, 3))]
+    for hi in range(draw(st.integers(0, 2))):
+        # helpers whose return paths yield values of 2-4 different types (scalars and lists of different element types): whatever the merge
+        # decides, it decides the same under every hash seed
+        rets = draw(st.lists(st.sampled_from(["1", "2.5", "'s'", "True", "[1, 2, 3]", "[0.5, 1.5]", "['a', 'b']", "[True]", "[]", "a", "[a]", "[a, 0.5]"]), min_size=2, max_size=4, unique=True))
+        hn = draw(st.sampled_from(["pick", "choose", "zpick", "apick"])) + str(hi)
+        lines.append(f"def {hn}(a):")
+        for j, rv in enumerate(rets[:-1]):
+            lines += [f"    if a > {10 * (len(rets) - j)}:", f"        return {rv}"]
+        lines.append(f"    return {rets[-1]}")
+        lines.append(f"rr{hi} = {hn}({draw(st.sampled_from(['3', '2.5', 'analog_read(\'A0\')']))})")
+        multi += 1
     pos = 0
     while pos < len(names):
         k = draw(st.integers(1, min(4, len(names) - pos)))
@@ -167,6 +178,27 @@ def plan(tier):
 PROFILE = gs.Profile(name="c10", off=set(gs.DEFAULT_OFF) - {"branch_first_assign"}, devices=0.5, loop_decl=0.3)
 
 
+def device_matrix(variant):
+    """the same script text up to constructor arguments (pins, geometry, baud): every device kind, every method once before and once inside the
+    main loop. Anything remembered by device *name* from an earlier transpilation shows in the next one."""
+    k = variant
+    pins = lambda *a: ", ".join(str(x + 20 * k) for x in a)
+    lcd = ["lcd = LCD(rs=22, en=23, d4=24, d5=25, d6=26, d7=27)", "lcd = LCD(rs=30, en=31, d4=32, d5=33, d6=34, d7=35, cols=20, rows=4, backlight_pin=44)", "lcd = LCD(i2c_addr=0x3F, cols=8, rows=1)"][k]
+    head = ["from Reduino.Actuators import Led, RGBLed, Servo, DCMotor, Buzzer", "from Reduino.Communication import SerialMonitor", "from Reduino.Displays import LCD",
+            "from Reduino.Sensors import Button, Potentiometer, Ultrasonic", "from Reduino.Utils import sleep",
+            f"mon = SerialMonitor({[9600, 115200, 57600][k]})", f"led = Led({pins(13)})", f"rgb = RGBLed({pins(9, 10, 11)})",
+            f"srv = Servo({pins(6)}" + ["", ", min_angle=10, max_angle=170", ", min_pulse_us=600, max_pulse_us=2300"][k] + ")",
+            f"mot = DCMotor({pins(2, 4, 3)})", f"bz = Buzzer({pins(8)}" + ["", ", default_frequency=880", ""][k] + ")", lcd,
+            f"pot = Potentiometer('A{k}')", f"us = Ultrasonic({pins(15, 16)})", "def clicked():", "    mon.write('c')", f"btn = Button({pins(7)}, on_click=clicked)"]
+    calls = ["led.toggle()", "led.blink(2, 2)", "led.fade_in(50, 1)", "led.flash_pattern([1, 0, 1], 2)", "led.set_brightness(90)", "rgb.set_color(1, 2, 3)", "rgb.fade(5, 6, 7, 10, 2)",
+             "rgb.blink(1, 2, 3, times=2, delay_ms=3)", "srv.write(90)", "srv.write_us(1500)", "mot.set_speed(0.5)", "mot.ramp(1.0, 10)", "mot.run_for(5, 0.25)", "mot.stop()",
+             "bz.play_tone(440, 5)", "bz.beep(440, on_ms=2, off_ms=2, times=2)", "bz.sweep(200, 400, duration_ms=4, steps=2)", "bz.melody('siren')", "bz.melody('notify', tempo=200)",
+             "lcd.write(0, 0, 'hi')", "lcd.line(0, 'yo', align='right')", "lcd.message('a')", "lcd.glyph(1, [1, 2, 4, 8, 16, 31, 0, 21])", "lcd.progress(0, 50, 100)", "lcd.brightness(100)" if k == 1 else "lcd.clear()",
+             "mon.write(pot.read())", "mon.write(us.measure_distance())", "mon.write(btn.is_pressed())", "mon.write(led.get_brightness())", "mon.write(mot.get_speed())", "mon.write(bz.get_last_frequency())", "sleep(3)"]
+    src = head + calls + ["lcd.animate('scroll', 0, 'hello world', speed_ms=5, loop=True)", "while True:"] + ["    " + c for c in calls if not c.startswith("lcd.glyph")]
+    return "\n".join(src) + "\n"
+
+
 def gen_pool(seed, n):
     """n scripts (promotion + grammar) generated deterministically from the shard seed."""
     pool = []
@@ -182,6 +214,7 @@ def gen_pool(seed, n):
     # distinct, deterministic order; every third script is followed by a twin that fails late (a rejected statement after its helpers were
     # processed): a transpilation that ends in ValueError must leave nothing behind for the next one either
     seen, out = set(), []
+    pool = [(device_matrix(v), 0) for v in range(3)] + pool
     for k, (s, m) in enumerate(pool):
         if s not in seen:
             seen.add(s)
